@@ -55,6 +55,7 @@ def summarise(cases):
         d["awaits_in_source"] += s["awaits"]
         d["programs_with_residue"] += 1 if s["residue"] else 0
         d["workload_crashed"] += 1 if s["crashed"] else 0
+        d["programs_with_twin_module"] += 1 if s.get("twin") else 0
         d["recorder_errors"] += 1 if s["errors"] else 0
     return dict(sorted(d.items()))
 
